@@ -131,6 +131,18 @@ def run(tier):
                       'results': [(enc.show_cat(r['c']), r['op'], r['sym']) for r in o['res']]}
         n_un += 1
     rejects, stats = validate('traces/RulesTrace.tla', events, 'c04', per_shard=15000, env={'AUX_FILE': rules.aux_file()})
+    from ..trace import binding_demo
+
+    def flip_head(e):
+        if e['e'] == 'bin' and e['res']:
+            e['res'][0]['hl'] = not e['res'][0]['hl']
+            return e
+
+    def wrong_cat(e):
+        if e['e'] == 'bin' and e['res'] and e['res'][0]['c']['k'] == 'F':
+            e['res'][0]['c'] = e['res'][0]['c']['l']
+            return e
+    demo = binding_demo('traces/RulesTrace.tla', events, [('head_flag_flipped', flip_head), ('result_replaced_by_its_left_part', wrong_cat)], 'c04', env={'AUX_FILE': rules.aux_file()})
     viols = []
     for (i, clause) in rejects:
         if not clause.startswith('C04.'):
@@ -149,6 +161,7 @@ def run(tier):
         'states': states + stats.states,
         'transitions': trans + stats.transitions,
         'traces_validated_against_impl': len(events),
+        'binding_demonstration': demo,
         'exhaustive': tier == 'thorough',
         'events': {'tlc_vectors_replayed': n_tlc, 'inventory_and_test_pairs': len(pairs) - n_tlc, 'closure_pairs': n_closure,
                    'unary_events': n_un, 'results_by_symbol': by_sym, 'non_modifier_results_by_symbol': nonmod},
